@@ -147,6 +147,25 @@ func (s *Vf37State) turn(what string, input arrow.RecordBatch, out *OutputCollec
 		return emit(1)
 	case "n":
 		return nil
+	case "em", "Em":
+		// emit WITH per-batch metadata (EmitWithMetadata): the batch is built
+		// from the framework allocator and ownership passes to the collector
+		rows := 1
+		if code == "Em" {
+			rows = vf37BigRows
+		}
+		vals := make([]interface{}, rows)
+		for i := range vals {
+			vals[i] = int64(pos)*1000 + sum + int64(i)
+		}
+		arr := buildArrayFromSlice(defaultAllocator(), arrow.PrimitiveTypes.Int64, vals)
+		rec := array.NewRecordBatch(vf37OutSchema, []arrow.Array{arr}, int64(rows))
+		arr.Release()
+		if err := out.EmitWithMetadata(rec, map[string]string{"vgi_batch_index": fmt.Sprint(pos)}); err != nil {
+			rec.Release()
+			return err
+		}
+		return nil
 	case "ec":
 		// emit, then cancel the dispatch context the hook derived (if any)
 		if err := emit(1); err != nil {
@@ -240,6 +259,8 @@ var vf37Scripts = map[int64][]string{
 	13: {"le", "f"},
 	14: {"E", "f"},
 	15: {"e", "ec", "e", "f"},
+	16: {"em", "Em", "em", "f"},
+	17: {"Em", "em"},
 }
 
 func vf37Kinds() []vf37Kind {
@@ -1049,6 +1070,8 @@ func vf41ExtKinds() []vf37Kind {
 		{Name: "u-big", Class: "ext-upload", Method: "u_big", X: 9000, Dispatched: true},
 		{Name: "prod-big", Class: "ext-upload", Method: "prod", Stream: 1, X: 14, In: []string{"t", "t"}, Dispatched: true},
 		{Name: "exch-big", Class: "ext-upload", Method: "exch", Stream: 2, X: 9, In: []string{"i"}, Dispatched: true},
+		{Name: "prod-meta", Class: "ext-upload-with-metadata", Method: "prod", Stream: 1, X: 16, In: []string{"t", "t", "t", "t"}, Dispatched: true},
+		{Name: "exch-meta", Class: "ext-upload-with-metadata", Method: "exch", Stream: 2, X: 17, In: []string{"i", "i"}, Dispatched: true},
 		{Name: "exch-err", Class: "handler-error", Method: "exch", Stream: 2, X: 2, In: []string{"i", "i"}, Dispatched: true},
 		{Name: "req-ptr-unary", Class: "ext-request", Method: "u_ok", X: 5, Via: vf41URLx, Dispatched: true},
 		{Name: "req-ptr-init", Class: "ext-request", Method: "exch", Stream: 2, X: 6, In: []string{"i"}, Via: vf41URLx, Dispatched: true},
